@@ -8,7 +8,9 @@ import vcheck
 # further Props modules of C06 (imported by NGF.Props.C06 as well; listed so that the axiom audit names them)
 # NGF.Props.C01Refs: C01's Service-relevance theorem over Model/PipelineRefs (built in C06's round; audited here until
 # props/c01.py lists it)
-EXTRA_MODULES = ["NGF.Props.C01Refs"]
+# NGF.Props.C06Certs: grant gating of certificate Secrets over C16's TLS pipeline model (imports NGF.Props.C06 and
+# NGF.Props.C16Pipeline, therefore a module of its own)
+EXTRA_MODULES = ["NGF.Props.C01Refs", "NGF.Props.C06Certs"]
 
 LATER_REASONS = {"BackendNotFound", "UnsupportedValue", "InvalidIPFamily"}
 VALIDATOR_FREE = {"RefNotPermitted", "Invalid", "ProtocolConflict", "HostnameConflict", "InvalidCertificateRef"}
@@ -45,7 +47,9 @@ def corr_e2e(d, m):
                 continue
             reasons = {c[2] for c in gl["conds"]}
             validators_passed = reasons <= VALIDATOR_FREE
-            if ml == "RefNotPermitted":
+            if ml.startswith("mismatch"):
+                diffs.append(f"listener {gl['name']}: Model/PipelineTlsRefs (projected grants) and the resolver model disagree: {ml}")
+            elif ml == "RefNotPermitted":
                 if gl["valid"] or gl["secret"]:
                     diffs.append(f"listener {gl['name']}: model RefNotPermitted, real valid={gl['valid']} secret={gl['secret']}")
                 elif validators_passed and "RefNotPermitted" not in reasons:
